@@ -350,7 +350,7 @@ UNIT = {
         decreases *expression,"""},
              "eval_procedure_call": {"props": ["C08", "C02", "C07"],
                  "sig_rewrites": [("S1", r"-> Result<\(Procedure<R>, ArgVec<R>\)>$", "-> (r: Result<(Procedure<R>, ArgVec<R>)>)")],
-                 "rewrites": [("X3s", r"arguments\s*\.iter\(\)\s*\.map\(\|arg\| Self::eval_expression\(arg, env\)\)\s*\.collect::<Result<ArgVec<_>>>\(\)",
+                 "rewrites": [("X3s", r"arguments\s*\.iter\(\)\s*\.map\(\|(\w+)\| Self::eval_expression\(\1, env\)\)\s*\.collect::<Result<ArgVec<_>>>\(\)",
                                "std_map_collect(arguments, |arg: &Expression| -> (o: Result<Value<R>>) requires may_eval(*arg) "
                                "ensures o == eval_result(*arg, **env) { Self::eval_expression(arg, env) })", 1, "S")],
                  "contract": """        requires
